@@ -2,6 +2,7 @@ import Driver.Wire
 import Marwood.Vm.RunLoop
 import Driver.VmStep
 import Marwood.Vm.Eval
+import Driver.VmCompile
 /-! Driver commands of the Vm area. -/
 namespace Marwood.Driver.Vm
 open Marwood Marwood.Vm
@@ -38,6 +39,7 @@ def handle (cmd : String) (args : List String) : Option String :=
       let s' := onError s
       let allU := s'.stack.cells.all (· == .undefined)
       pure s!"ok sp={s'.stack.sp} bp={s'.bp} ep={VmStep.showNatOrMax s'.ep} acc={VmStep.encCell s'.acc} allundef={if allU then 1 else 0} cap={s'.stack.cells.length}"
+  | "compile", args => VmCompile.handle "compile" args
   | _, _ => none
 
 end Marwood.Driver.Vm
